@@ -4,6 +4,6 @@ go 1.21
 
 require github.com/charlievieth/strcase v0.0.0
 
-require golang.org/x/sys v0.28.0 // indirect
+require golang.org/x/sys v0.28.0
 
 replace github.com/charlievieth/strcase => /repo
